@@ -228,8 +228,11 @@ namespace Givaro {
     void* GivMMRefCount::resize (void* p, const size_t oldsize, const size_t newsize )
     {
 
-        if (p ==0)
-            return &(GivMMFreeList::_allocate(newsize+sizeof(int64_t))->data[1]) ;
+        if (p ==0) {
+            BlocFreeList* fresh = GivMMFreeList::_allocate(newsize+sizeof(int64_t));
+            fresh->data[0] = 1 ;
+            return &(fresh->data[1]) ;
+        }
 
 
         BlocFreeList* tmp = reinterpret_cast<BlocFreeList*>(((char*)p)-sizeof(BlocFreeList));
